@@ -89,4 +89,19 @@ ImplSet32(secs, endian, a, limbs) ==
 \* sections() in the shape Backing!SectionsDisjoint / SectionsRepresent take
 AsSections(secs) ==
   LET ks == SortedKeys(DOMAIN secs) IN [i \in 1..Len(ks) |-> [a |-> ks[i], d |-> secs[ks[i]].d, p |-> secs[ks[i]].p]]
+
+(* ------------- diagnosis of the known empty-write defect ---------------- *)
+\* Without FixEmpty an empty write at an address x inside a section replaces the tail of that
+\* section from x on (the whole section when x is its start) by an empty section: those bytes are
+\* dropped.  `lost` is the set of keys the design-level cells have and the implementation has
+\* dropped this way; MC_Backing checks that the transcription above holds exactly the surviving
+\* cells.  Trace_C16 uses it only to label a rejection (state class of a known finding) - never
+\* to accept anything.
+RunFrom(c, lost, x) ==
+  { y \in DOMAIN c : y >= x /\ \A z \in x..y : z \in DOMAIN c /\ z \notin lost /\ c[z].r = c[x].r }
+\* c: the design-level cells before the write
+LostAfterWrite(c, lost, a, data) ==
+  IF data # <<>> THEN lost \ (a..(a + Len(data) - 1))
+  ELSE IF a \in DOMAIN c /\ a \notin lost THEN lost \cup RunFrom(c, lost, a) ELSE lost
+Surviving(c, lost) == [x \in (DOMAIN c) \ lost |-> c[x]]
 =============================================================================
